@@ -36,6 +36,9 @@ Definition f01_via_xff := via_xff_appended ob_hop_list ob_flat_stack ob_xff_read
 Definition f01_upgrade := upgrade_readded ob_hop_list ob_flat_stack ob_xff_reads_all_lines ob_xfwd_fill_reads_all_lines
   ob_via_reads_all_lines ob_handle_order.
 
+Definition f01_model_satisfies_oracle := model_satisfies_oracle ob_hop_list ob_flat_stack ob_xff_reads_all_lines
+  ob_xfwd_fill_reads_all_lines ob_via_reads_all_lines ob_via_loop_status ob_via_sets_close ob_via_join_sep ob_proto_table status_400.
+
 Lemma f01_user_agent_never_default tag r r' : modify_request tag r = Passed r' -> raw_get k_ua (q_hdr r') <> None.
 Proof. intro H. rewrite (f01_user_agent tag r r' H). destruct (raw_get k_ua (after_removal (q_hdr r))); discriminate. Qed.
 
